@@ -860,7 +860,11 @@ def process(rec, payload, out):
                 continue
             if verbatim_of(symbols) != expected_verbatim(rec) or [s_.type for s_ in symbols[len(symbols) - len(rec.get('verbat', [])):]] != [Type.VERBATIM] * len(rec.get('verbat', [])):
                 raise Mis('verbatim-statements-differ-from-spec', got=verbatim_of(symbols), want=expected_verbatim(rec))
-            Model = fsic.build_model(symbols)
+            try:
+                Model = fsic.build_model(symbols)
+                Model(range(max(rec['lags'] + rec['leads'] + 1, 1)))
+            except Exception as e:   # "whenever parse_model returns ... build_model succeeds and the class can be instantiated"
+                raise Mis(f'build-or-instantiation-failed-after-successful-parse:{type(e).__name__}', error=str(e)[:300])
             if 'c03' in checks:
                 did += check_c03(rec, names, symbols, Model, light=(layout != 'canon'))
             if 'c01' in checks:
